@@ -304,8 +304,25 @@ func (fr *Frame) loopEnv(li *loopInfo, st *State) *SpecEnv {
 	for g, gt := range vc.ghostT {
 		env.vars[g] = tv{t: vc.stGet0(st, "$g."+g), ty: gt}
 	}
+	// variables that live in a cell (address taken / captured by a closure): their current value is the cell's content,
+	// never some earlier load of it
+	cellVar := map[string]bool{}
+	for _, b := range fr.fn.Blocks {
+		for _, ins := range b.Instrs {
+			if a, ok := ins.(*ssa.Alloc); ok && a.Comment != "" {
+				if _, isLoc := fr.locs[a]; isLoc {
+					cellVar[a.Comment] = true
+				} else if _, seen := fr.vals[a]; seen {
+					cellVar[a.Comment] = true
+				}
+			}
+		}
+	}
 	// named locals visible at the header (via debug refs), excluding those redefined inside the loop
 	for name, v := range fr.namedValuesAt(li) {
+		if cellVar[name] {
+			continue
+		}
 		if _, shadow := env.vars[name]; !shadow {
 			env.vars[name] = tv{t: fr.v1(v), ty: v.Type()}
 		}
